@@ -82,6 +82,12 @@ CLAIMED['C16'] = dict(
          '(same formatter and value for Small(n) and Big(n)).',
     note='Partial: covers noulith\'s own codec code. Trusted/outside: base64, gzip, serde_json, UTF-8, std float parsing/printing, digit generation of the std/num formatters, longer digit strings, non-ASCII text.',
     design='§7 C15/C16', technique='symbolic execution of rustc MIR + SMT (z3) over symbolic digit strings')
+CLAIMED['C15'] = dict(
+    text='Bounded symbolic model checking of the lexer units Lexer::{next, peek, emit, lex_simple_string_after_start, lex_base_and_emit, lex_base_64_and_emit} driven directly on a cursor over '
+         'symbolic characters: plain runs, every single-character escape, \\\\x, \\\\u with and without each bracket kind and up to 9 (quick) / 10 hex digits decode to exactly the characters they spell, '
+         'Invalid tokens exactly for malformed or non-scalar escapes, radix accumulators (bases 2..36 and base-64) equal the sum of digit values over the maximal digit prefix; no path panics.',
+    note='Partial: the main Lexer::lex dispatch loop over arbitrary text, the recursive-descent parser, format-string bodies, float literals (std parse) and literal evaluation are outside (not encodable within reach).',
+    design='§7 C15/C16', technique='symbolic execution of rustc MIR + SMT (z3) over symbolic character sequences')
 NOT_APPLICABLE = {
  'C13': 'sequence library vs executable specification: the deciding content is std collections glued by one-line closures over whole sequences; not encodable as a bounded solver query over noulith code (DESIGN §9); parts decided under C08/C09/C10/C11/C14',
  'C17': 'freeze: semantic equivalence of two recursive traversals over programs; a bounded solver query cannot carry it (DESIGN §9)',
